@@ -16,7 +16,7 @@ pub fn def() -> CheckDef {
         id: "C20",
         salt: 0xC20,
         level: "exploration",
-        rule: "random parametrised networks (implicit and named unknown functions, shared symbols, constrained and unconstrained) x closed formulae x \
+        rule: "random parametrised networks (implicit and named unknown functions, shared symbols, constrained and unconstrained) x closed formulae (one in three extended, with colour-dependent wild-card and domain sets whose colour slices are handed to the instantiated network) x \
                up to 12 valid colours per network: the states the coloured result associates with colour c must equal (a) the result computed on \
                the fully specified network the HARNESS builds by substituting the truth tables of c for the unknown functions, and (b) the result \
                on the library's own pick_witness(c) network (compared after matching state variables by name). Additionally a copy of the \
@@ -31,7 +31,7 @@ pub fn def() -> CheckDef {
             let m = if t == Tier::Quick { 1 } else { 30 };
             let big_min = super::big::count(t) / 2;
             vec![
-                ("big_model_cases_completed", big_min),("distinct_nontrivial", 150 * m), ("colours_compared", 5000 * m), ("networks_with_shared_symbol", 50 * m), ("witness_comparisons", 2000 * m), ("constraint_variant_comparisons", 500 * m), ("wide_colours_compared", 150 * m), ("colour_restricted_graph_comparisons", 500 * m), ("wide_cases_with_colour_specific_answer", 20 * m)]
+                ("big_model_cases_completed", big_min),("distinct_nontrivial", 150 * m), ("colours_compared", 5000 * m), ("networks_with_shared_symbol", 50 * m), ("witness_comparisons", 2000 * m), ("constraint_variant_comparisons", 500 * m), ("wide_colours_compared", 150 * m), ("extended_cases", 300 * m), ("colour_restricted_graph_comparisons", 500 * m), ("wide_cases_with_colour_specific_answer", 20 * m)]
         },
         run,
         prelude: None,
@@ -117,6 +117,16 @@ fn run(rng: &mut Rng, idx: u64, tier: Tier) -> CaseOut {
     fopts.max_quant_depth = rng.range(0, 2);
     fopts.hybrids = fopts.max_quant_depth > 0;
     fopts.max_size = if tier == Tier::Quick { 10 } else { 16 };
+    // one case in three: an extended formula whose wild-card / domain sets depend on the colour (the instantiated
+    // network gets the colour's slice of every set)
+    let extended = rng.chance(1, 3);
+    if extended {
+        fopts.max_quant_depth = fopts.max_quant_depth.max(1);
+        fopts.hybrids = true;
+        fopts.wild_props = vec!["p".to_string()];
+        fopts.domains = vec!["d".to_string(), "p".to_string()];
+        fopts.domain_pct = 50;
+    }
     let net = crate::net::gen_net(rng, &nopts);
     let f = gen_formula(rng, &fopts, &net.names);
     let k = f.quant_depth() as u16;
@@ -150,8 +160,15 @@ fn run(rng: &mut Rng, idx: u64, tier: Tier) -> CaseOut {
             out.count("networks_with_shared_symbol");
         }
     }
-    let empty = HashMap::new();
-    let coloured = match run_ep(Ep::FormulaDirty, &text, &sys, &empty) {
+    let mut sets: HashMap<String, crate::libg::ExplicitSet> = HashMap::new();
+    if extended {
+        for l in ["p", "d"] {
+            sets.insert(l.to_string(), crate::world::gen_explicit_set(rng, &world).0);
+        }
+        out.count("extended_cases");
+    }
+    let empty = lib_context(&world, &sys, &sets);
+    let coloured = match run_ep(if extended { Ep::ExtendedDirty } else { Ep::FormulaDirty }, &text, &sys, &empty) {
         Call::Ok(s) => s,
         Call::Err(e) => {
             out.violate("error on a valid closed formula", format!("Err({e}) on `{text}`"), case_json(&world, &[text.clone()], vec![]));
@@ -188,7 +205,9 @@ fn run(rng: &mut Rng, idx: u64, tier: Tier) -> CaseOut {
                 vec![("colour", J::s(&bits_str(colour))), ("instantiated_network", J::s(&inst_world.net.to_aeon())), ("why", J::s(why))],
             )
         };
-        let inst_res = match run_ep(Ep::FormulaDirty, &text, &inst_sys, &empty) {
+        let inst_sets: HashMap<String, crate::libg::ExplicitSet> = sets.iter().map(|(l, set)| (l.clone(), vec![set[*ci].clone()])).collect();
+        let inst_ctx = lib_context(&inst_world, &inst_sys, &inst_sets);
+        let inst_res = match run_ep(if extended { Ep::ExtendedDirty } else { Ep::FormulaDirty }, &text, &inst_sys, &inst_ctx) {
             Call::Ok(s) => s,
             Call::Err(e) => {
                 out.violate("error on a valid closed formula", format!("instantiated network: Err({e})"), detail(&e));
@@ -220,7 +239,7 @@ fn run(rng: &mut Rng, idx: u64, tier: Tier) -> CaseOut {
             let bdd = sys.graph.symbolic_context().bdd_variable_set().mk_conjunctive_clause(&biodivine_lib_bdd::BddPartialValuation::from_values(&clause));
             biodivine_lib_param_bn::symbolic_async_graph::GraphColors::new(bdd, sys.graph.symbolic_context()).intersect(sys.graph.unit_colors())
         };
-        if !colour_bdd.is_empty() {
+        if !colour_bdd.is_empty() && !extended {
             let witness = match libg::guarded(|| sys.graph.pick_witness(&colour_bdd)) {
                 Ok(w) => w,
                 Err(_) => continue,
@@ -256,7 +275,7 @@ fn run(rng: &mut Rng, idx: u64, tier: Tier) -> CaseOut {
         }
     }
     // (c) the same network with one more constraint: colours that stay valid keep their answer
-    if !world.net.regs.is_empty() {
+    if !world.net.regs.is_empty() && !extended {
         let mut stricter = world.net.clone();
         let ri = rng.below(stricter.regs.len());
         if !stricter.regs[ri].observable {
@@ -294,7 +313,7 @@ fn run(rng: &mut Rng, idx: u64, tier: Tier) -> CaseOut {
     }
     // (d) the same network, the graph restricted to a subset of the colours (custom unit set): every colour that is
     // still admitted keeps its answer
-    if rng.coin() {
+    if rng.coin() && !extended {
         if let Ok(Ok(Some((s3, what)))) = libg::guarded(|| libg::build_sys_colour_restricted(&world.net, k, &world.cs.bits, rng)) {
             for ep in [Ep::FormulaDirty, Ep::MultipleDirty] {
                 if let Call::Ok(r3) = run_ep(ep, &text, &s3, &empty) {
